@@ -54,6 +54,8 @@ pub mod nested;
 pub mod c15;
 #[cfg(any(feature = "p09" , feature = "p10" , feature = "p16"))]
 pub mod c16;
+#[cfg(any(feature = "p09" , feature = "p10" , feature = "p16"))]
+pub mod skillc;
 #[cfg(any(feature = "p17"))]
 pub mod c17;
 #[cfg(any(feature = "p18"))]
